@@ -270,3 +270,25 @@ package mpx
 //@   ensures result >= 0
 //@ func (MessageList).GetErr
 //@   trusted
+
+// ---- the channel interface as seen by rpc (C04): assumed; ghost counters record what was sent
+//@ package github.com/basecomplextech/spec/mpx
+//@ iface Channel.Receive
+//@   modifies ghost.errMade at 0
+//@   ensures result1.Code != "ok" ==> ghost(errMade, 0) == 1
+//@   ensures result1.Code == "ok" ==> ghost(errMade, 0) == old(ghost(errMade, 0))
+//@ iface Channel.Send
+//@   modifies ghost.errMade at 0
+//@   modifies ghost.nSend at 0
+//@   ensures ghost(nSend, 0) == old(ghost(nSend, 0)) + 1
+//@   ensures result.Code != "ok" ==> ghost(errMade, 0) == 1
+//@   ensures result.Code == "ok" ==> ghost(errMade, 0) == old(ghost(errMade, 0))
+//@ iface Channel.SendAndClose
+//@   modifies ghost.errMade at 0
+//@   modifies ghost.nClose at 0
+//@   ensures ghost(nClose, 0) == old(ghost(nClose, 0)) + 1
+//@   ensures result.Code != "ok" ==> ghost(errMade, 0) == 1
+//@   ensures result.Code == "ok" ==> ghost(errMade, 0) == old(ghost(errMade, 0))
+//@ iface Channel.Free
+//@ iface Channel.Context
+//@ iface Channel.ReceiveWait
